@@ -9,11 +9,11 @@ open Knut Knut.GoSem Knut.JournalPrinter
 open Knut.Generated.Go
 open Knut.FactsAgree.TransPosting Knut.FactsAgree.TransAccount Knut.FactsAgree.TransDate
 
-/-- a model transaction as the Go value: `srcs` gives every posting its `Src` pointer; a nil and an empty `Targets` slice
-are the same list (the translated functions only copy the field) -/
+/-- a model transaction as the Go value: `srcs` gives every posting its `Src` pointer; `Targets` is nil (`none`) exactly when the
+model transaction has no `@performance` annotation (the printer tells a nil slice from an empty one) -/
 def txGo (cur : String → Bool) (src : Ref) (psrc : Ref) (t : Knut.Transaction) : transaction.Transaction :=
   { Src := src, Date := t.date, Description := t.description, Postings := t.postings.map (postingGo cur psrc),
-    Targets := (t.targets.getD []).map (commodityGo cur) }
+    Targets := t.targets.map (fun tg => tg.map (commodityGo cur)) }
 
 theorem replaceChars_quote (cs : List Char) :
     Strings.replaceChars ['"'] ['\''] cs 0 = cs.map (fun c => if c == '"' then '\'' else c) := by
@@ -35,7 +35,7 @@ theorem ReplaceAll_quote (s : String) : Strings.ReplaceAll s "\"" "'" = descText
 
 /-- `transaction.Builder.Build`: the description's double quotes become single quotes, everything else is copied -/
 theorem Builder_Build_agrees (src : Ref) (date : Int) (desc : String) (ps : List posting.Posting)
-    (tg : List commodity.Commodity) :
+    (tg : Option (List commodity.Commodity)) :
     transaction.Builder.Build ⟨src, date, desc, ps, tg⟩ = ⟨src, date, descText desc, ps, tg⟩ := by
   simp [transaction.Builder.Build, ReplaceAll_quote]
 
@@ -160,10 +160,10 @@ theorem Compare_agrees (cur : String → Bool) (s1 p1 s2 p2 : Ref) (t u : Knut.T
 
 /-- non-vacuity: equal dates and descriptions, the second posting decides -/
 example : transaction.Compare
-    ⟨⟨0⟩, 5, "a \"b\"", [⟨⟨0⟩, 1, 0, accountGo ⟨["Assets", "A"]⟩, accountGo ⟨["Assets", "B"]⟩, ⟨"CHF", false⟩⟩], []⟩
-    ⟨⟨0⟩, 5, "a \"b\"", [⟨⟨0⟩, 2, 0, accountGo ⟨["Assets", "A"]⟩, accountGo ⟨["Assets", "B"]⟩, ⟨"CHF", false⟩⟩], []⟩
+    ⟨⟨0⟩, 5, "a \"b\"", [⟨⟨0⟩, 1, 0, accountGo ⟨["Assets", "A"]⟩, accountGo ⟨["Assets", "B"]⟩, ⟨"CHF", false⟩⟩], none⟩
+    ⟨⟨0⟩, 5, "a \"b\"", [⟨⟨0⟩, 2, 0, accountGo ⟨["Assets", "A"]⟩, accountGo ⟨["Assets", "B"]⟩, ⟨"CHF", false⟩⟩], none⟩
     = GoSem.Outcome.ok (-1) := by decide +kernel
-example : (transaction.Builder.Build ⟨⟨0⟩, 5, "a \"b\"", [], []⟩).Description = "a 'b'" := by decide +kernel
+example : (transaction.Builder.Build ⟨⟨0⟩, 5, "a \"b\"", [], none⟩).Description = "a 'b'" := by decide +kernel
 
 /-! ## `transaction.expand` (the accrual expansion) -/
 
@@ -229,7 +229,7 @@ theorem rebook_agrees (cur : String → Bool) (src : Ref) (t : Knut.Transaction)
     (p : Knut.Posting) (q : Rat) :
     transaction.Builder.Build ⟨src, dt, desc,
       posting.Builder.Build ⟨(GoZero.zero : Ref), q, (GoZero.zero : Rat), accountGo acct, accountGo p.account, commodityGo cur p.commodity⟩,
-      (t.targets.getD []).map (commodityGo cur)⟩
+      t.targets.map (fun tg => tg.map (commodityGo cur))⟩
     = txGoD cur src ⟨0⟩ (Accrual.rebook t dt desc acct p q) := by
   rw [Builder_Build_agrees]
   have := TransPosting.Builder_Build_agrees cur ⟨0⟩ acct p.account p.commodity q 0
@@ -318,7 +318,7 @@ theorem expand_end_error (tx : transaction.Transaction) (accr : Ref) (acc : acco
 of 33.4, 33.3, 33.3 dated at the month ends -/
 example : (transaction.expand
     ⟨⟨1⟩, 738860, "rent", [⟨⟨2⟩, -100, 0, accountGo ⟨["Assets", "Bank"]⟩, accountGo ⟨["Expenses", "Rent"]⟩, ⟨"CHF", false⟩⟩,
-                           ⟨⟨2⟩, 100, 0, accountGo ⟨["Expenses", "Rent"]⟩, accountGo ⟨["Assets", "Bank"]⟩, ⟨"CHF", false⟩⟩], []⟩
+                           ⟨⟨2⟩, 100, 0, accountGo ⟨["Expenses", "Rent"]⟩, accountGo ⟨["Assets", "Bank"]⟩, ⟨"CHF", false⟩⟩], none⟩
     ⟨0⟩ (accountGo ⟨["Assets", "Accrual"]⟩, none) (738885, none) (738975, none) "monthly").bind
       (fun r => GoSem.Outcome.ok (r.1.map (fun tx => (tx.Date, tx.Description, tx.Postings.map (·.Quantity))), r.2))
     = GoSem.Outcome.ok ([(738860, "rent", [-100, 100]),
